@@ -350,6 +350,40 @@ def static_gate():
     return bad
 
 
+def source_obligation(name: str, translate, template: str, theorems: list[str]):
+    """returns a callable: translate /repo's current source to Gallina (translate(REPO) -> text), append the fixed proof
+    script coq/templates/<template>, compile; ok iff coqc accepts the file and every theorem is closed"""
+    def run():
+        os.makedirs(GEN, exist_ok=True)
+        path = os.path.join(GEN, f"{name}.v")
+        res = {"name": name, "theorems": theorems, "template": f"coq/templates/{template}", "file": path}
+        try:
+            text = translate(REPO)
+        except Exception as ex:     # fail-closed translator: the source left the translatable fragment
+            res.update(ok=False, stage="translate", output=f"{type(ex).__name__}: {ex}")
+            return res
+        with open(os.path.join(COQ, "templates", template)) as f:
+            proof = f.read()
+        for bad in ("Admitted", "admit.", "Axiom ", "Parameter ", "Conjecture ", "Unset Guard", "bypass_check"):
+            if bad in re.sub(r"\(\*.*?\*\)", "", proof, flags=re.S):
+                res.update(ok=False, stage="static_gate", output=f"forbidden: {bad}")
+                return res
+        with open(path, "w") as f:
+            f.write(text + "\n" + proof)
+        rc, out = run_coq_file(path, timeout=600)
+        for ext in (".vo", ".vok", ".vos", ".glob"):
+            q = path[:-2] + ext
+            if os.path.exists(q):
+                os.remove(q)
+        closed = out.count("Closed under the global context")
+        res.update(ok=(rc == 0 and closed == len(theorems)), stage="coqc",
+                   source_sha256=hashlib.sha256(text.encode()).hexdigest(),
+                   print_assumptions="Closed under the global context" if closed == len(theorems) else out[-800:],
+                   output=out[-2000:])
+        return res
+    return run
+
+
 # ---------------------------------------------------------------------------------------------
 # the generic check driver
 
@@ -362,7 +396,7 @@ def write_json(path, obj):
 
 def run_check(prop: str, streams: list[Stream], tier: str, seed: int, *, level_text: str,
               trusted_base: list[str], assumptions: list[str], extra=None, matchers=None,
-              budget=None):
+              budget=None, source_obligations=None):
     """Generic property check. Returns process exit code."""
     t0 = time.time()
     ensure_theory_built()
@@ -387,6 +421,11 @@ def run_check(prop: str, streams: list[Stream], tier: str, seed: int, *, level_t
         write_json(p, {"property": prop, "kind": "theorem_file_does_not_check", "file": thm["file"],
                        "output": thm["output"]})
         violations.append((p, "no-failing-input-found"))
+
+    # obligations about /repo's CURRENT source (translator output + fixed proof script); a broken one is
+    # reported with a failing input if the correspondence below finds one, else as no-failing-input-found
+    src_results = [ob() for ob in (source_obligations or [])]
+    broken_src = [r for r in src_results if not r["ok"]]
 
     for s_i, st in enumerate(streams):
         rng = random.Random(f"{seed}/{prop}/{st.name}")
@@ -459,10 +498,18 @@ def run_check(prop: str, streams: list[Stream], tier: str, seed: int, *, level_t
         if reported > 3:
             stats[st.name]["further_failures_not_reported"] = reported - 3
 
+    if broken_src:
+        with_input = [rp for rp, tail in violations if not tail]
+        p = os.path.join(replay_dir, "source_obligation.json")
+        write_json(p, {"property": prop, "kind": "source_translation_obligation_does_not_check",
+                       "obligations": broken_src,
+                       "failing_inputs_found_by_correspondence": with_input})
+        if not with_input:
+            violations.append((p, "no-failing-input-found"))
     n_thm = len(thm.get("theorems", []))
     shards = sum((s["cases"] + 99) // 100 for s in stats.values())
-    obligations = n_thm + len(streams)
-    discharged = (n_thm if thm["ok"] else 0) + sum(
+    obligations = n_thm + len(streams) + len(src_results)
+    discharged = (n_thm if thm["ok"] else 0) + (len(src_results) - len(broken_src)) + sum(
         1 for st in streams
         if all(k in GOOD for k in stats[st.name]["verdicts"]) or not violations)
     ev = {
@@ -483,6 +530,9 @@ def run_check(prop: str, streams: list[Stream], tier: str, seed: int, *, level_t
         "assumptions": assumptions, "wall_s": round(time.time() - t0, 2),
         "violations": len(violations),
     }
+    if src_results:
+        ev["coverage"]["source_obligations"] = [
+            {k: v for k, v in r.items() if k != "output" or not r["ok"]} for r in src_results]
     if extra:
         ev["coverage"].update(extra() if callable(extra) else extra)
     write_json(os.path.join(os.environ.get("VERIF_EVIDENCE_DIR", os.path.join(VERIF, "evidence")), f"{prop}.json"), ev)
